@@ -34,6 +34,26 @@ pub fn extract_attribute(attr: &str) -> Option<TokenStream> {
     attr[PREFIX.len()..attr.len() - SUFFIX.len()].parse().ok()
 }
 
+/// The complete generated file(s) (struct definitions and impl blocks) per module, as the CLI converter writes them.
+pub fn generate_files(texts: &[String]) -> Result<Vec<(String, String)>, String> {
+    use asn1rs_model::generate::Generator;
+    let mut res = MultiModuleResolver::default();
+    for t in texts {
+        res.push(Model::try_from(Tokenizer.parse(t)).map_err(|e| format!("parse: {}", e))?);
+    }
+    let models = res.try_resolve_all().map_err(|e| format!("resolve: {:?}", e))?;
+    let scope = models.iter().collect::<Vec<_>>();
+    let mut out = Vec::new();
+    for m in &models {
+        let mut g = RustCodeGenerator::default();
+        g.add_model(m.to_rust_with_scope(&scope[..]));
+        for (file, content) in g.to_string().map_err(|_| "generator failed".to_string())? {
+            out.push((file, content));
+        }
+    }
+    Ok(out)
+}
+
 /// Resolves the given module texts together (in the given load order) and walks every definition through the macro path.
 pub fn pipeline(texts: &[String]) -> Result<Vec<DefInfo>, String> {
     let mut res = MultiModuleResolver::default();
